@@ -5,7 +5,7 @@ package remote
 // Driver for Fetcher.tla (property C18, headers). It only EXECUTES and RECORDS.
 //
 // The registry is an in-memory http.RoundTripper with a scripted personality (serves the blob directly / redirects
-// to a location, locations expire with 403, the registry may demand Authorization with a 401 Basic challenge,
+// to a location, locations expire with 403, the registry itself may answer 403 once, it may demand Authorization with a 401 Basic challenge,
 // locations may refuse HEAD). EVERY http.Request it sees is an event (host, configured host headers present?,
 // Authorization present?, method, answer), appended while the registry's mutex is held.
 //
@@ -216,6 +216,7 @@ type memRegistry struct {
 	valid    map[string]bool
 	needAuth bool
 	headOK   bool
+	regDeny  bool // the registry answers its next authorized request with 403 (once)
 	log      *fLog
 	act      *actors
 	sch      *sched
@@ -231,6 +232,11 @@ func (r *memRegistry) env(what, l string) bool {
 		} else {
 			r.mode = "direct"
 		}
+	case "deny":
+		if r.regDeny {
+			return false
+		}
+		r.regDeny = true
 	case "expire":
 		if !r.valid[l] {
 			return false
@@ -266,6 +272,8 @@ func (r *memRegistry) RoundTrip(req *http.Request) (*http.Response, error) {
 		switch {
 		case r.needAuth && auth == "None":
 			rsp = "401"
+		case r.regDeny:
+			rsp, r.regDeny = "403", false
 		case r.mode == "direct":
 			rsp = "ok"
 		default:
@@ -641,9 +649,11 @@ func TestVerifFetcherFree(t *testing.T) {
 			<-startc
 			for k := 0; k < nenv; k++ {
 				time.Sleep(time.Duration(er.Intn(150)) * time.Microsecond)
-				switch er.Intn(3) {
+				switch er.Intn(4) {
 				case 0:
 					s.reg.env("switch", "")
+				case 1:
+					s.reg.env("deny", "")
 				default:
 					s.reg.mu.Lock()
 					l := s.reg.loc
